@@ -6,6 +6,7 @@ package query
 // C14 (post-grammar stage): the same pipeline is total.
 
 import (
+	"fmt"
 	"time"
 
 	zz "github.com/spq/pkappa2/internal/zzverif"
@@ -147,6 +148,108 @@ func ZZ_C03_Time() {
 	e := zzShape(t, func() *zzExpr {
 		return zzTimeLeaf(keys[zz.Choice("timekey", zz.Param("timekeys", 3))], zz.Choice("timeform", 5))
 	})
+	s := zzNewStream(0, 4)
+	zzCheckEquiv(e, s)
+}
+
+// zzArithFilter: key:<sum>, key:<sum>: or key::<sum>, the sum mixing one
+// symbolic literal with the stream's own attributes (@cport@, @cbytes@, ...)
+// under symbolic signs: the normaliser collects equal summands, drops those
+// that cancel, divides by common factors and must round the bound correctly.
+func zzArithFilter() *zzExpr {
+	keys := []string{"cport", "cbytes", "sbytes"}
+	key := keys[zz.Choice("ar.key", len(keys))]
+	attr := zzNumAttrs(key)[0]
+	form := zz.Choice("ar.form", 3) // 0: x == sum, 1: x >= sum, 2: x <= sum
+	v := &numberRangeListParser{}
+	v.List = zzGrow(v.List)
+	v.List[0].Range = zzGrow(v.List[0].Range)
+	if form != 0 {
+		v.List[0].Range = zzGrow(v.List[0].Range)
+	}
+	r := 0
+	if form == 2 {
+		r = 1
+	}
+	nparts := 1 + zz.Choice("ar.parts", zz.Param("arithparts", 3))
+	text := ""
+	type part struct {
+		neg bool
+		lit int
+		v   NumberConditionSummandType
+		isV bool
+	}
+	var parts []part
+	for i := 0; i < nparts; i++ {
+		v.List[0].Range[r].Parts = zzGrow(v.List[0].Range[r].Parts)
+		p := &v.List[0].Range[r].Parts[i]
+		pt := part{neg: zz.Choice("ar.neg", 2) == 1}
+		if pt.neg {
+			p.Operators = "-"
+			text += "-"
+		} else if i > 0 {
+			p.Operators = "+"
+			text += "+"
+		}
+		if k := zz.Choice("ar.kind", 1+len(keys)); k == 0 {
+			pt.lit = zz.Range("ar.n", 0, 63)
+			p.Number = pt.lit
+			text += fmt.Sprintf("%d", pt.lit)
+		} else {
+			pt.isV, pt.v = true, zzNumAttrs(keys[k-1])[0]
+			p.Variable = &variableParser{Name: keys[k-1]}
+			text += "@" + keys[k-1] + "@"
+		}
+		parts = append(parts, pt)
+	}
+	switch form {
+	case 1:
+		text += ":"
+	case 2:
+		text = ":" + text
+	}
+	e := &zzExpr{kind: zzLeaf, text: key + ":" + text}
+	e.truth = func(s *zzStream) bool {
+		sum := 0
+		for _, pt := range parts {
+			x := pt.lit
+			if pt.isV {
+				x = zzNumAttr(s, pt.v)
+			}
+			if pt.neg {
+				sum -= x
+			} else {
+				sum += x
+			}
+		}
+		x := zzNumAttr(s, attr)
+		switch form {
+		case 0:
+			return x == sum
+		case 1:
+			return x >= sum
+		}
+		return x <= sum
+	}
+	val := text
+	if zz.Symbolic() {
+		val = zzKey()
+		zzNumTable[val] = v
+	}
+	e.term = &queryTerm{Key: key, Value: val}
+	return e
+}
+
+// arithmetic number filters, plain and negated, alone and next to a second one
+func ZZ_C03_Arith() {
+	zzInstallParsers()
+	e := zzArithFilter()
+	switch zz.Choice("shape", zz.Param("arithshapes", 3)) {
+	case 1:
+		e = zzN(e)
+	case 2:
+		e = zzA(e, zzN(zzArithFilter()))
+	}
 	s := zzNewStream(0, 4)
 	zzCheckEquiv(e, s)
 }
